@@ -89,6 +89,13 @@ type TxResult struct {
 
 // NewWorld builds a fresh chain. Every bit of nondeterminism is pinned from the tape.
 func NewWorld(r *simrt.Run) *World {
+	// With the map-order seam built in (engine chainsim_mo) every chain check runs under a FIXED
+	// (sorted) order unless the property chose one itself: whether results depend on the map
+	// iteration order is C01's question; everywhere else such a dependence would only make runs
+	// irreproducible. (Without the seam the call is a no-op.)
+	if simrt.MapOrderPolicy() == simrt.MapOrderNative {
+		simrt.SetMapOrder(simrt.MapOrderSorted, 0)
+	}
 	// genesis date: chosen by the tape, includes month ends and leap years
 	year := 2023 + r.Draw("cfg", 3)
 	month := time.Month(1 + r.Draw("cfg", 12))
